@@ -1223,7 +1223,17 @@ class Executor(object):
 
     def s_Try(self, node, st, fr):
         if node.finalbody:
-            raise Unsupported("try/finally")
+            inner = ast.Try(body=node.body, handlers=node.handlers, orelse=node.orelse, finalbody=[])
+            outs = self.s_Try(inner, st, fr) if (node.handlers or node.orelse) else self.block(node.body, st, fr)
+            res = []
+            for (s, tag, v) in outs:
+                # the finally block runs on every exit; its own exit (if any) replaces the pending one
+                for (s2, tag2, v2) in self.block(node.finalbody, s, fr):
+                    if tag2 == "ok":
+                        res.append((s2, tag, v))
+                    else:
+                        res.append((s2, tag2, v2))
+            return res
         res = []
         for (s, tag, v) in self.block(node.body, st, fr):
             if tag == "ok" and node.orelse:
